@@ -18,8 +18,59 @@ fn item_hash<T: ToTokens>(t: &T) -> String {
     use std::hash::{Hash, Hasher};
     #[allow(deprecated)]
     let mut h = std::hash::SipHasher::new();
-    tok(t).hash(&mut h);
+    strip_trailing_commas(&tok(t)).hash(&mut h);
     format!("{:016x}", h.finish())
+}
+
+/// Formatting-insensitive token text: a comma directly before a closing
+/// delimiter or `>` (which rustfmt adds or removes) is dropped; tokens are
+/// joined by single spaces.
+fn strip_trailing_commas(s: &str) -> String {
+    match s.parse::<proc_macro2::TokenStream>() {
+        Ok(ts) => {
+            let mut out = String::new();
+            norm_stream(ts, &mut out);
+            out
+        }
+        Err(_) => s.to_string(),
+    }
+}
+
+fn norm_stream(ts: proc_macro2::TokenStream, out: &mut String) {
+    use proc_macro2::{Delimiter, TokenTree};
+    let toks: Vec<TokenTree> = ts.into_iter().collect();
+    for (i, t) in toks.iter().enumerate() {
+        match t {
+            TokenTree::Punct(p) if p.as_char() == ',' => {
+                let next = toks.get(i + 1);
+                let trailing = match next {
+                    None => true,
+                    Some(TokenTree::Punct(n)) => n.as_char() == '>',
+                    _ => false,
+                };
+                if !trailing {
+                    out.push_str(", ");
+                }
+            }
+            TokenTree::Group(g) => {
+                let (o, c) = match g.delimiter() {
+                    Delimiter::Parenthesis => ("(", ")"),
+                    Delimiter::Brace => ("{", "}"),
+                    Delimiter::Bracket => ("[", "]"),
+                    Delimiter::None => ("", ""),
+                };
+                out.push_str(o);
+                out.push(' ');
+                norm_stream(g.stream(), out);
+                out.push_str(c);
+                out.push(' ');
+            }
+            other => {
+                out.push_str(&other.to_string());
+                out.push(' ');
+            }
+        }
+    }
 }
 
 /// All `#[derive(..)]` paths of an item.
@@ -160,6 +211,7 @@ fn walk(items: &[Item], module: &str, out: &mut Vec<Value>) {
                     "vis": vis_str(&e.vis), "derives": derives(&e.attrs),
                     "serde": serde_opts(&e.attrs), "variants": vs,
                     "generics": tok(&e.generics), "doc": doc(&e.attrs), "h": item_hash(e),
+                    "t": if std::env::var("VGEN_ITEM_TEXT").is_ok() { Some(strip_trailing_commas(&tok(e))) } else { None },
                 }));
             }
             Item::Impl(i) => {
